@@ -101,12 +101,16 @@ def main(argv=None):
     viols = []          # (case, v)
     known_hits = {}     # finding id -> count
     harness_errors = []
+    timeouts = []
     evaluated = 0
     for case, r in zip(cases, results):
         if r is None:
             continue
         if 'harness_error' in r:
             harness_errors.append((case, r['harness_error']))
+            continue
+        if 'case_timeout' in r and 'viol' not in r:
+            timeouts.append(case)
             continue
         evaluated += 1
         for k, v in (r.get('stats') or {}).items():
@@ -142,6 +146,7 @@ def main(argv=None):
         'known_findings_observed': known_hits,
         'cases_generated': len(cases),
         'harness_errors': len(harness_errors),
+        'case_timeouts': [json.dumps(c)[:300] for c in timeouts[:10]],
         'worker_problems': problems[:5],
     }
     if hasattr(mod, 'finish'):
@@ -187,6 +192,8 @@ def main(argv=None):
             inconclusive.append(f'{lost}/{len(cases)} cases could not be evaluated')
         if problems:
             inconclusive.append('worker problems: ' + '; '.join(problems)[:800])
+        if len(timeouts) > 0.05 * max(1, len(cases)):
+            inconclusive.append(f'{len(timeouts)} cases hit the per-case wall-clock watchdog')
         if harness_errors:
             inconclusive.append(f'{len(harness_errors)} harness errors, first: '
                                 + harness_errors[0][1][-600:])
